@@ -287,6 +287,8 @@ def nth_path_spec(an, it, name, path, r):
             post = post or deleg is not None
         elif is_view(c) or is_panic_plumbing(c) or an.is_pure(c) or c.key in (K["len"],) or getattr(c, "no_effects", False):
             continue
+        elif c.fn == "core::mem::replace" and any(s_["site"][0] == c.bb and s_["site"][1] == 10 ** 6 for s_ in sts.values()):
+            continue   # its store to an index field is on the path as a store event (the old value it returns is the value read before)
         elif c.key in (K["next"], K["next_back"]):
             return REFUTED, "delegates to %s in %s" % (c.key.split("::")[-1], name)
         else:
@@ -387,6 +389,8 @@ def ownership_path(an, it, name, path, r, byval=False, forgotten=False):
             pieces.append((c.args[0][2], S))
         elif is_view(c) or is_panic_plumbing(c) or an.is_pure(c) or c.key in (K["len"],) or getattr(c, "no_effects", False):
             continue
+        elif c.fn == "core::mem::replace" and any(s_["site"][0] == c.bb and s_["site"][1] == 10 ** 6 for s_ in sts.values()):
+            continue   # its store to an index field is on the path as a store event (the old value it returns is the value read before)
         else:
             return UNKNOWN, "call outside the recognised vocabulary on this path: %s" % c.fn
     fs = frozenset(facts)
@@ -517,7 +521,29 @@ def check_simple(ctx, cfg, it):
     else:
         cs = [c for c in an.calls if c.key == K["next_back"]]
         ok = len(cs) == 1 and len(payload_calls(an)) == 1 and cs[0].args[0][0] == "P" and cs[0].args[0][1] == ("local", 1) and all(r["val"] == cs[0].ret for r in an.returns)
-        ctx.ob(rule, K["last"], ok, "last() = next_back() on self, result returned, then self dropped", at=b["at"], cfg=cfg)
+        det = "last() = next_back() on self, result returned, then self dropped"
+        if not ok:
+            # written out: per return path of the tree-shaped body (invariant at entry) - None only for an empty iterator, otherwise Some of the
+            # element read from slot index_back - 1 (the last live one); `self` (all the rest) is dropped on the way out (C05.V: once, last)
+            at = ctx.analysis_inl(cfg, K["last"], it.inv_facts(True), split=True, tag="inv1")
+            if at is not None and at.returns and not has_cycle(at):
+                N, S = NS(at)
+                lo, hi = it.entry(at, True)
+                okp = True
+                for r in at.returns:
+                    pf = at.poly_facts(r["facts"])
+                    v = r["val"]
+                    if v[0] == "A" and isinstance(v[1], tuple) and v[1][:2] == ("adt", "core::option::Option") and v[1][2] == 0:
+                        okp = okp and prove(("==", hi - lo), pf)
+                    elif v[0] == "A" and isinstance(v[1], tuple) and v[1][:2] == ("adt", "core::option::Option") and v[1][2] == 1:
+                        rd = [c for c in at.calls if c.fn == "core::ptr::read" and c.ret == v[2][0] and c.args[0][0] == "P" and c.args[0][1] == ("field", ("local", 1), (it.ia,))]
+                        okp = okp and len(rd) >= 1 and all(prove(("==", c.args[0][2] - (hi - Poly.const(1)) * S), pf) for c in rd) and prove((">=", hi - lo - 1), pf)
+                    else:
+                        okp = False
+                    okp = okp and any(d["place"]["l"] == 1 and not d["place"]["p"] and not d["cleanup"] for d in at.drops)
+                ok = okp
+                det = "last() written out: None only when nothing is left, otherwise Some(the element read from slot index_back - 1), self dropped afterwards: %s" % ok
+        ctx.ob(rule, K["last"], ok, det, at=b["at"], cfg=cfg)
     # Debug
     b, an = analyse(ctx, cfg, K["debug"], it)
     if b is None:
@@ -671,6 +697,37 @@ def check_clone(ctx, cfg, it):
     nexts = [c for c in an.calls if c.fn == "core::iter::Iterator::next" and c.ret[0] == "O"]
     ok = len(news) == 1 and len(writes) == 1 and len(clones) == 1 and len(nexts) == 1
     det = "expected one fresh iterator aggregate, one element clone and one write per loop iteration"
+    if len(news) == 1 and len(writes) == 1 and len(clones) == 1 and not nexts:
+        # form D: `while new.index_back < remaining.len() { write(new.storage[new.index_back], remaining[new.index_back].clone()); new.index_back += 1 }`
+        # - the new iterator's own count is the loop counter: it starts at 0, each step clones element (index + count) of self into slot `count`
+        # of the new storage and then counts it, and the loop can only be left when count >= len
+        from ..absint import State
+        g, wr, cl = news[0], writes[0], clones[0]
+        init_ok = g["ops"][it.i0] == ("I", Poly.const(0)) and g["ops"][it.i1] == ("I", Poly.const(0))
+        wp, sp = wr.args[0], cl.args[0]
+        body_ok = dst_ok = src_ok = inc_ok = exit_ok = False
+        newloc = None
+        if wp[0] == "P" and wp[1][0] == "field" and wp[1][1][0] == "local" and wp[1][2] == (it.ia,):
+            newloc = wp[1][1][1]
+            cnt = an.read_cell(State(wr.mem, wr.facts), ("local", newloc), (it.i1,), {"k": "prim", "n": "usize"})
+            if cnt[0] == "I":
+                i_ = cnt[1]
+                pfw = an.poly_facts(wr.facts)
+                dst_ok = prove(("==", wp[2] - i_ * S), pfw)
+                src_ok = sp[0] == "P" and sp[1] == ("field", ("arg", 1), (it.ia,)) and prove(("==", sp[2] - (lo + i_) * S), an.poly_facts(cl.facts)) \
+                    and prove((">=", hi - lo - i_ - 1), an.poly_facts(cl.facts))
+                body_ok = wr.args[1] == cl.ret and an.dominates(cl.bb, wr.bb)
+                incs = [s_ for s_ in an.assigns if s_["cell"] == (("local", newloc), (it.i1,)) and an.reaches(s_["site"][0], cl.bb) and an.reaches(cl.bb, s_["site"][0])]
+                inc_ok = len(incs) == 1 and incs[0]["val"][0] == "I" and incs[0]["val"][1] == i_ + Poly.const(1) and an.dominates(wr.bb, incs[0]["site"][0])
+                loop = {x for x in range(len(an.blocks)) if an.reaches(x, cl.bb) and an.reaches(cl.bb, x)}
+                exits = [(x, y) for x in loop for y in an.edges.get(x, []) if y not in loop and not an.blocks[y]["cleanup"]]
+                exit_ok = len(exits) == 1 and all(any(prove((">=", i_ - (hi - lo)), an.poly_facts(fs_)) for fs_ in an.edge_facts.get(e_, [])) for e_ in exits)
+        self_untouched = not stores_to(an, it, ("arg", 1))
+        ret_ok = newloc is not None and all(r["val"][0] == "A" and r["val"][1] == ("adt", it.path, 0) and r["val"][2][it.i0] == ("I", Poly.const(0)) for r in an.returns)
+        ok_d = bool(init_ok and dst_ok and src_ok and body_ok and inc_ok and exit_ok and self_untouched and ret_ok)
+        ctx.ob(rule, K["clone"], ok_d, "fresh iterator starts (0, 0): %s; counting loop on the new iterator's own index_back: slot `count` of the new storage: %s <- clone of self[index + count] (count < len): %s, written after the clone: %s, then counted (+1): %s; left only when count >= len: %s; original untouched: %s; the new iterator (index 0) is returned: %s" % (
+            init_ok, dst_ok, src_ok, body_ok, inc_ok, exit_ok, self_untouched, ret_ok), at=b["at"], cfg=cfg)
+        return
     if ok:
         g = news[0]
         init_ok = g["ops"][it.i0] == ("I", Poly.const(0)) and g["ops"][it.i1] == ("I", Poly.const(0))
@@ -712,11 +769,30 @@ def check_clone(ctx, cfg, it):
                     dst_ok = wp[2] == (incs_b[0]["val"][1] - Poly.const(1)) * S  # slot index == the count of clones written so far
             pair = True
             body_ok = cl.args[0] == el and wr.args[1] == cl.ret and dst_ok
+        elif zt is None and pair and el[2][0][0] == "I" and el[2][1][0] == "P":
+            # form C: `for (i, src) in self.as_slice().iter().enumerate() { write(new.storage.add(i), src.clone()); new.index_back = i + 1 }` - the
+            # destination slot is named by the enumerate index (0, 1, 2 .. in step with the source) and the new count is stored absolutely
+            from ..loops import find_loops
+            lps = [lp for lp in find_loops(an) if lp.nxt is nx]
+            pipe = lps[0].pipe if lps else None
+            inner = pipe[3] if (isinstance(pipe, tuple) and len(pipe) == 4 and pipe[:3] == ("V", "iter", "enumerate")) else None
+            src = inner[3] if (isinstance(inner, tuple) and inner[:3] == ("V", "iter", "slice")) else None
+            if src is not None and src[0] == "P" and src[1] == ("field", ("arg", 1), (it.ia,)) and src[3] is not None and not lps[0].backward and not lps[0].breaks:
+                src_ok = peq(an, nx.facts, src[2], lo * S) and peq(an, nx.facts, src[3], hi - lo)
+            idx = el[2][0][1]
+            wp = wr.args[0]
+            if wp[0] == "P" and wp[1][0] == "field" and wp[1][1][0] == "local" and wp[1][2] == (it.ia,):
+                newloc = wp[1][1][1]
+                dst_ok = wp[2] == idx * S
+            body_ok = cl.args[0] == el[2][1] and wr.args[1] == cl.ret and dst_ok
+            form_c_idx = idx
         else:
             body_ok = pair and cl.args[0] == el[2][1] and wr.args[0] == el[2][0] and wr.args[1] == cl.ret
         # per iteration: index_back of the NEW iterator += 1, nothing else of it, nothing of self
         incs = [s for s in an.assigns if newloc is not None and s["cell"] == (("local", newloc), (it.i1,))]
         inc_ok = len(incs) == 1 and incs[0]["val"][0] == "I" and len((incs[0]["val"][1] - Poly.const(1)).atoms()) == 1 and an.dominates(wr.bb, incs[0]["site"][0])
+        if "form_c_idx" in locals():
+            inc_ok = inc_ok and incs[0]["val"][1] == form_c_idx + Poly.const(1)   # the count after the k-th clone is k + 1
         self_untouched = not stores_to(an, it, ("arg", 1))
         ret_ok = newloc is not None and all(r["val"][0] == "A" and r["val"][1] == ("adt", it.path, 0) and r["val"][2][it.i0] == ("I", Poly.const(0)) for r in an.returns)
         ok = init_ok and dst_ok and src_ok and body_ok and inc_ok and self_untouched and ret_ok
@@ -786,10 +862,12 @@ def check_unchecked_bounds(ctx, cfg, it):
                 # built without get_unchecked (e.g. from_raw_parts): the obligation is the extent of the returned view itself - exactly
                 # [index, index_back) of the iterator's own storage, which lies within the array under the invariant
                 verify_models(ctx, cfg, [K[name]], rule=rule)
+                n += 1   # the accessor is accounted for (the floor counts accessors reached, whatever the access idiom)
                 continue
             b, an = analyse(ctx, cfg, K[name], it, False)
             raw = [c for c in slot_reads(an, it, ("arg", 1))]
             ctx.ob(rule, "%s#access" % K[name], bool(raw), "no get_unchecked on the iterator's storage; raw slot reads (bounds-checked by C06.S): %d" % len(raw), at=b["at"], cfg=cfg)
+            n += 1 if raw else 0
     return n
 
 
